@@ -1,5 +1,6 @@
 import Tcs.Model.History
 import Tcs.Model.Sem.Fault
+import Tcs.Model.Sem.Conc
 import Tcs.Generated.ParamsImpl
 open Tcs
 
@@ -88,6 +89,8 @@ def reservedId : Uuid := ⟨340282366920938463463374607431768211455⟩
 
 inductive St | mem (m : Mem) | sql (s : Sql)
 
+inductive CSt' | mem (c : Conc Mem Response) | sql (c : Conc Sql Response)
+
 structure Ctx where
   st : St := .mem {}
   sys : Sys := { cfg := ⟨14, 100⟩, params := Params.impl }
@@ -97,6 +100,9 @@ structure Ctx where
   spy : Bool := false
   faultRun : Bool := false
   pending : List (Nat × FaultKind) := []
+  conc : Option CSt' := none
+  progs : List (ReqM Response) := []
+  lateBegin : List Nat := []
 
 def Ctx.http (c : Ctx) : HttpCfg := { cfg := c.sys.cfg, params := c.sys.params, allow := c.allow, ensure := c.sys.ensure }
 
@@ -236,6 +242,37 @@ def snapVidOf (st : St) (c : Uuid) : Option Uuid :=
   | .ok (some cl) => cl.snap.map (·.vid)
   | _ => none
 
+/-- description of a thread state, for trace validation -/
+def thDesc {σ} : Th σ Response → String
+  | .idle _ => "idle"
+  | .outside (.done _) => "done"
+  | .outside (.txn ..) => "want-begin"
+  | .inTxn _ _ (.ret _) _ => "at-end"
+  | .inTxn _ _ (.call c _) _ => "call:" ++ c.name
+  | .finished _ => "finished"
+
+def concThreadDesc (c : CSt') (t : Nat) : String :=
+  match c with
+  | .mem c => (c.threads[t]?.map thDesc).getD "none"
+  | .sql c => (c.threads[t]?.map thDesc).getD "none"
+
+def concStep (c : CSt') (t : Nat) : Option CSt' :=
+  match c with
+  | .mem c => (stepSmall MemB .inPlace c t).map .mem
+  | .sql c => (stepSmall SqlB .snapshotCommit c t).map .sql
+
+def concResp (c : CSt') (t : Nat) : Option Response :=
+  match c with
+  | .mem c => c.threads[t]?.bind Th.resp
+  | .sql c => c.threads[t]?.bind Th.resp
+
+def concDb (c : CSt') : St := match c with | .mem c => .mem c.db | .sql c => .sql c.db
+
+def mkConc (st : St) (progs : List (ReqM Response)) : CSt' :=
+  match st with
+  | .mem m => .mem ⟨m, none, progs.map .idle⟩
+  | .sql s => .sql ⟨s, none, progs.map .idle⟩
+
 def kvOf (ws : List String) (k : String) : Option String :=
   (ws.filterMap fun w => match w.splitOn "=" with | [a, b] => if a = k then some b else none | _ => none).head?
 
@@ -266,6 +303,70 @@ def step (ctx : Ctx) (lhs : String) (implObs : String := "") : Ctx × String :=
     ({ ctx with st := st, sys := { cfg := ⟨days, vers⟩, params := Params.impl, ensure := ensure }, allow := allow, spy := kvOf ws "spy" = some "1", faultRun := kvOf ws "faults" = some "1", pending := [] }, "")
   | "end" :: _ => (ctx, "")
   | "fault" :: rest => ({ ctx with pending := parseFaults rest }, "")
+  | ["prefill", c, k, snapat, now, ids] =>
+    match uuidOf c, k.toNat?, snapat.toInt?, now.toInt? with
+    | some c, some k, some snapat, some now =>
+      let chain := if ids = "-" then [] else (ids.splitOn ",").filterMap uuidOf
+      if k = 0 then ({ ctx with conc := none, progs := [], lateBegin := [] }, "") else
+      let st1 := (runReq ctx.st ((Ev.create c).req ctx.sys)).2
+      let (st2, _) := chain.foldl (fun (acc : St × (Uuid × Nat)) v =>
+          let (st, (p, i)) := acc
+          ((runReq st ((Ev.avLib c p (ByteArray.mk #[0xA0, i.toUInt8]) v now).req { ctx.sys with cfg := ⟨14, 100⟩ })).2, (v, i + 1))) (st1, (Uuid.nil, 0))
+      let st3 := if snapat ≥ 0 then
+          match chain[snapat.toNat]? with
+          | some v => (runReq st2 ((Ev.as c v (ByteArray.mk #[0x5A, snapat.toNat.toUInt8]) now).req ctx.sys)).2
+          | none => st2
+        else st2
+      ({ ctx with st := st3, conc := none, progs := [], lateBegin := [] }, "")
+    | _, _, _, _ => (ctx, "bad-op")
+  | "req" :: _t :: rest =>
+    match parseHttp rest with
+    | none => (ctx, "bad-op")
+    | some r => ({ ctx with progs := ctx.progs ++ [serve ctx.http r] }, "")
+  | ["ev", t, label] =>
+    match t.toNat? with
+    | none => (ctx, "bad-op")
+    | some t =>
+      let c := ctx.conc.getD (mkConc ctx.st ctx.progs)
+      let d := concThreadDesc c t
+      let fin (c' : CSt') (msg : String) (late : List Nat := ctx.lateBegin) : Ctx × String :=
+        ({ ctx with conc := some c', st := concDb c', lateBegin := late }, msg)
+      let stepOr (expect : String) : Ctx × String :=
+        if d = expect then
+          match concStep c t with
+          | some c' => fin c' "ok"
+          | none => fin c s!"mismatch:model-cannot-step-from-{d}"
+        else fin c s!"mismatch:model-thread-is-{d}"
+      match label with
+      | "start" => stepOr "idle"
+      | "want-begin" =>
+        if d = "want-begin" then
+          match concStep c t with
+          | some c' => fin c' "ok"
+          | none => fin c "ok" (t :: ctx.lateBegin)      -- the model's lock is taken: the implementation must block too
+        else fin c s!"mismatch:model-thread-is-{d}"
+      | "begun" =>
+        if ctx.lateBegin.contains t then
+          match concStep c t with
+          | some c' => fin c' "ok" (ctx.lateBegin.filter (· ≠ t))
+          | none => fin c "mismatch:implementation-began-a-transaction-while-the-model-lock-is-held"
+        else if d.startsWith "call:" || d = "at-end" then fin c "ok" else fin c s!"mismatch:model-thread-is-{d}"
+      | "blocked" =>
+        if ctx.lateBegin.contains t then fin c "ok" else fin c "mismatch:implementation-blocked-but-model-lock-was-free"
+      | "begin-failed" => fin c "mismatch:begin-failed"
+      | "end" =>
+        if d = "at-end" then (match concStep c t with | some c' => fin c' "ok" | none => fin c "mismatch:cannot-end")
+        else if d = "want-begin" || d = "done" then fin c "ok"      -- already released by a failed call
+        else fin c s!"mismatch:model-thread-is-{d}"
+      | "finish" => stepOr "done"
+      | l =>
+        if l.startsWith "call:" then stepOr l else fin c "bad-op"
+  | ["res", t] =>
+    match t.toNat?, ctx.conc with
+    | some t, some c => (ctx, match concResp c t with | some r => showResp r | none => s!"no-response:{concThreadDesc c t}")
+    | _, _ => (ctx, "bad-op")
+  | "illegal" :: _ => (ctx, "")
+  | "seq" :: _ => (ctx, "")
   | "dump" :: c :: rest =>
     match uuidOf c with
     | none => (ctx, "bad-op")
